@@ -208,6 +208,11 @@ def run_case(case):
              "ieeeKnown": int(case["ieee"] != "unknown"), "ieee": list(node_ieee.serialize()), "tcSelf": tc_self,
              "canSet": int((bool(case["rewritable"]) and "getTokenData" in ncp.cmds and "setTokenData" in ncp.cmds)     # token commands exist from version 9 on
                            or (bool(case.get("burn")) and can_burn0))}
+        # when the node address is actually written, the trust-centre partner is the one SUPPLIED (write_network_info replaces it by the NCP's own
+        # address only when the address could not be written); judged from the case, not from the object write_network_info was free to adjust
+        if case["ieee"] == "different" and w["canSet"] and not case.get("twice"):
+            w["tcKnown"] = int(case["tc"] != "unknown")
+            w["tcEui"] = list(zt.EUI64(tc).serialize())
         return [{"a": "run", "ver": ver, "rewritable": int(case["rewritable"]), "twice": int(bool(case.get("twice"))), "w": w, "sec": sec, "st": st, "r": r, "order": order,
                  "completed": completed, "exc": exc, "second": second, "r2children": r2c, "st2children": st2c,
                  "overlap": overlap, "ro": ro}]
